@@ -412,6 +412,38 @@ def run_history(job):
     return out
 
 
+# ------------------------------------------------------------------------------ projection along a direction
+def run_project(job):
+    out = dict(id=job["id"])
+    try:
+        reg = build(job["A"])
+        rows = []
+        for p, d in job["queries"]:
+            dn = numpy.array(d, dtype=float)
+            dn = dn / numpy.linalg.norm(dn)
+            pv = numpy.array(p, dtype=float)
+            row = dict(contains=bool(reg.containsPoint(Vector(*p))))
+            o = obs(lambda: reg.projectVector(Vector(*p), tuple(float(t) for t in dn)))
+            if "exc" in o:
+                row["exc"] = o["exc"]
+            elif o["v"] is None:
+                row["t"] = None
+            else:
+                r = numpy.array([float(t) for t in o["v"]])
+                row["t"] = float(numpy.dot(r - pv, dn))
+                row["off_line"] = float(numpy.linalg.norm((r - pv) - row["t"] * dn))
+            # all crossings of the line with the surface (both rays, every hit)
+            loc, ray, _ = reg.mesh.ray.intersects_location(ray_origins=[pv, pv], ray_directions=[dn, -dn], multiple_hits=True)
+            row["ts"] = sorted(float(numpy.dot(x - pv, dn)) for x in loc)
+            row["sd"] = float(trimesh.proximity.ProximityQuery(reg.mesh).signed_distance([list(p)])[0])
+            rows.append(row)
+        out["rows"] = rows
+    except BaseException as e:  # noqa
+        import traceback
+        out["crash"] = type(e).__name__ + ": " + str(e)[:300] + " @ " + traceback.format_exc()[-400:]
+    return out
+
+
 # ------------------------------------------------------------------------------ dispatch probe
 PROBE_SPECS = {
     "AllRegion": dict(kind="everywhere"),
@@ -608,7 +640,8 @@ def main():
     if kind == "dispatch":
         out = probe_dispatch(payload)
     elif kind == "pairs":
-        out = dict(results=[run_history(j) if j.get("kind") == "history" else run_pair(j) for j in payload["jobs"]])
+        out = dict(results=[run_history(j) if j.get("kind") == "history" else run_project(j) if j.get("kind") == "project" else run_pair(j)
+                            for j in payload["jobs"]])
     else:
         raise SystemExit("unknown kind")
     print(json.dumps(out))
